@@ -206,6 +206,31 @@ def run_core(prop, tier, seed, t0, cfgname='TraceCore.cfg'):
                     out_lines.append('VIOLATION property=C17 replay=%s' % path); nviol += 1
         xthread_cov = dict(cross_thread_tracer=dict(programs=len(csegs), events=sum(r.get('events', 0) for r in cres),
                                                    rule='concurrent programs whose prelude installs a tracer on the main thread; every accepted call of every worker thread must deliver one record to it (validated in the linearization replay)'))
+    # ---- C08: "for reference returns, that very object" - the reference-returning members of the C09 family
+    refret_cov = {}
+    if prop == 'C08':
+        try:
+            d9 = lib.build_c09(tier)
+            w9 = os.path.join(work, 'c09'); os.makedirs(w9, exist_ok=True)
+            res9 = c09_observe(d9, w9)
+        except lib.BuildError as e:
+            res9 = None
+            p9 = os.path.join(lib.BUILD, 'replay', 'C08-refreturn-compile.txt'); os.makedirs(os.path.dirname(p9), exist_ok=True); open(p9, 'w').write(str(e))
+            out_lines.append('VIOLATION property=C08 replay=%s' % p9); nviol += 1
+        if isinstance(res9, str):
+            print('CHECK-ERROR property=C08 reference-return family: %s' % res9[:1500]); return 2
+        if res9:
+            cases9, crash9, by9 = res9
+            refc = {cid for cid, c in cases9.items() if c['mode'] in ('lref', 'clref', 'ccref') and c['kind'] != 'throw'}
+            if crash9:
+                p9 = os.path.join(lib.BUILD, 'replay', 'C08-refreturn-crash.txt'); open(p9, 'w').write(crash9)
+                out_lines.append('VIOLATION property=C08 replay=%s' % p9); nviol += 1
+            for cid in sorted(set(by9) & refc)[:5]:
+                p9 = os.path.join(lib.BUILD, 'replay', 'C08-refreturn-case%d.txt' % cid)
+                open(p9, 'w').write('case %s (see %s/c09_%d.cpp, function case_%d): a reference result must be the very object the RETURN expression denotes\n%s\n' % (
+                    json.dumps(cases9[cid]), d9, cid % 16, cid, '\n'.join(json.dumps(v) for v in by9[cid])))
+                out_lines.append('VIOLATION property=C08 replay=%s' % p9); nviol += 1
+            refret_cov = dict(reference_returns=dict(cases=len(refc), rule='members of the C09 family whose mock function returns int& / int const& / CC const& from RETURN(_i): the result is the caller\'s object, no copy is made'))
     # ---- the repository's own tests (self_test, thread_terror) with hooks, validated against Generic.tla
     suite_cov = {}
     if prop in SUITE_PROPS:
@@ -233,6 +258,7 @@ def run_core(prop, tier, seed, t0, cfgname='TraceCore.cfg'):
                sanitizers='ASan+UBSan+LSan, TROMPELOEIL_SANITY_CHECKS', tree=lib.tree_hash())
     cov.update(suite_cov)
     cov.update(xthread_cov)
+    cov.update(refret_cov)
     if apalache:
         cov['inductive_invariant'] = {k: v for k, v in apalache.items() if k != 'output'}
     if exhaustive_note:
@@ -693,30 +719,17 @@ REGISTRY['C20'] = run_coro
 
 _C09_FIELDS = ['plain_w', 'lr_w', 'addr_w', 'value_w', 'plain_s', 'lr_s', 'addr_s', 'stable_s', 'value_s', 'stable_r', 'retal', 'copies', 'wrote']
 
-def run_c09(prop, tier, seed, t0):
+def c09_observe(d, work):
+    """run the built C09 family and judge every case by Binding!Expect; returns (cases, crash_text or None, {case id: [violations]}) or error string"""
     import subprocess
-    work = os.path.join(lib.BUILD, 'work-%s-%d' % (prop, os.getpid()))
-    shutil.rmtree(work, ignore_errors=True); os.makedirs(work)
-    rp = os.path.join(lib.BUILD, 'replay'); os.makedirs(rp, exist_ok=True)
-    nviol, out_lines = 0, []
-    try:
-        d = lib.build_c09(tier)
-    except lib.BuildError as e:
-        # every member of the family is a documented legal use of the public macros: not compiling IS the violation
-        path = os.path.join(rp, 'C09-compile.txt'); open(path, 'w').write(str(e))
-        print('VIOLATION property=C09 replay=%s' % path)
-        lib.write_evidence(prop, tier, seed, 'model_checking', dict(evaluations=1, distinct_nontrivial=2, rule='family failed to compile', samples=['compile']),
-                           time.time() - t0, 1, [])
-        return 1
     raw = os.path.join(work, 'out.ndjson')
     env = dict(os.environ); env.update(lib.SAN_ENV)
     p = subprocess.run(['timeout', '900', os.path.join(d, 'drv_c09'), raw], env=env, stdout=subprocess.PIPE, stderr=subprocess.STDOUT, text=True)
     cases = {c['id']: c for c in json.load(open(os.path.join(d, 'cases.json')))}
+    crash = None
     if p.returncode != 0:
-        path = os.path.join(rp, 'C09-crash.txt'); open(path, 'w').write('driver failed rc=%d\n%s\n' % (p.returncode, p.stdout[-4000:]))
-        out_lines.append('VIOLATION property=C09 replay=%s' % path); nviol += 1
+        crash = 'driver failed rc=%d\n%s\n' % (p.returncode, p.stdout[-4000:])
     obs = {cid: dict(vals={}, counts={}, reports=0) for cid in cases}
-    reports = 0
     cur = None
     for l in open(raw) if os.path.exists(raw) else []:
         try:
@@ -740,10 +753,34 @@ def run_c09(prop, tier, seed, t0):
                                     obs={f: o['vals'].get(f, -1) for f in _C09_FIELDS})) + '\n')
     r = lib.validate_generic('TraceBinding.tla', 'TraceBinding.cfg', norm, work, 'v')
     if 'error' in r:
-        print('CHECK-ERROR property=C09 %s' % r['error'][:2000]); return 2
+        return r['error']
     by_id = {}
     for v in r['viol']:
         by_id.setdefault(v['id'], []).append(v)
+    return cases, crash, by_id
+
+def run_c09(prop, tier, seed, t0):
+    import subprocess
+    work = os.path.join(lib.BUILD, 'work-%s-%d' % (prop, os.getpid()))
+    shutil.rmtree(work, ignore_errors=True); os.makedirs(work)
+    rp = os.path.join(lib.BUILD, 'replay'); os.makedirs(rp, exist_ok=True)
+    nviol, out_lines = 0, []
+    try:
+        d = lib.build_c09(tier)
+    except lib.BuildError as e:
+        # every member of the family is a documented legal use of the public macros: not compiling IS the violation
+        path = os.path.join(rp, 'C09-compile.txt'); open(path, 'w').write(str(e))
+        print('VIOLATION property=C09 replay=%s' % path)
+        lib.write_evidence(prop, tier, seed, 'model_checking', dict(evaluations=1, distinct_nontrivial=2, rule='family failed to compile', samples=['compile']),
+                           time.time() - t0, 1, [])
+        return 1
+    res = c09_observe(d, work)
+    if isinstance(res, str):
+        print('CHECK-ERROR property=C09 %s' % res[:2000]); return 2
+    cases, crash, by_id = res
+    if crash:
+        path = os.path.join(rp, 'C09-crash.txt'); open(path, 'w').write(crash)
+        out_lines.append('VIOLATION property=C09 replay=%s' % path); nviol += 1
     for cid, vs in list(by_id.items())[:10]:
         path = os.path.join(rp, 'C09-case%d.txt' % cid)
         open(path, 'w').write('case %s (see %s/c09_%d.cpp, function case_%d)\nmismatches against spec/Binding.tla Expect:\n%s\n' % (
